@@ -9,18 +9,18 @@ from props import c01
 ID = "C03"
 LEVEL = "other"
 LEAN_MODULES = ['Sonic.Props.C03', 'Sonic.Props.C05']
-REQUIRED_THEOREMS = ["Sonic.Props.C03." + n for n in ["C03_value", "C03_value_of_ok", "C03_sax_assemble", "C03_root_finished"]]
+REQUIRED_THEOREMS = ["Sonic.Props.C03." + n for n in ["C03_value", "C03_value_of_ok", "C03_sax_assemble", "C03_root_finished", "C03_xmemcpy_copy"]]
 CONFIGS = [("avx2", "prod"), ("sse", "prod"), ("avx2", "san")]
 CONFIGS_THOROUGH = CONFIGS + [("dyn", "prod"), ("sse", "san")]
-RULE = ("valid texts: every combination of value kinds as array element / member value / root, member and element counts 0..40 (crossing the "
-        "Xmemcpy 4-chunk unroll and its tails), nesting to depth 64, whitespace runs longer than a 64-byte block, containers closing at "
+RULE = ("valid texts: every combination of value kinds as array element / member value / root, member and element counts 0..40 with mixed kinds and 41..300 (+ sparse to 5003) "
+        "with integer children (crossing the Xmemcpy 4-/8-chunk unrolls, their tails and any bulk-copy threshold), nesting to depth 64, whitespace runs longer than a 64-byte block, containers closing at "
         "64-byte block edges (text shifted so the closing bracket lands on offsets 62..65), strings and numbers straddling block edges, "
         "duplicate keys.  distinct = distinct command line; non-trivial = contains a container or an escape")
 EXPLANATION = ("Oracle: the value computed by Spec.Json.parse (Lean), rendered canonically; the implementation's document is read back through "
                "the public accessor API only (type tests, Size, iteration, getters) and must render identically (number kinds and bit patterns, "
                "decoded string bytes, member order, duplicates). Theorems: C05 (strings), C04 (numbers) and, as they land, C03_sax_assemble / "
                "C03_value listed in the evidence.")
-ASSUMPTIONS = ["Xmemcpy = copy (exercised for chunk counts 0..40 and both chunk sizes)"]
+ASSUMPTIONS = ["the cursor-level Xmemcpy model (proved to be a copy, C03_xmemcpy_copy) is tied to the four kernels by correspondence on chunk counts 0..520 (+ sparse to 4097), guard pages on both blocks"]
 TRUSTED = ["Spec.Json.parse as oracle (compiled Lean evaluation)"]
 LEVEL_TEXT = ("Machine-checked proof (Lean 4): Spec.Json.parse bs = ok v implies the parser model builds exactly v (nesting, order, duplicates, "
               "decoded strings not clobbered by later in-place decoding, number kinds) - C03_value, C03_sax_assemble - under the per-input "
@@ -47,6 +47,22 @@ def generate(rng, tier):
     for n in range(0, 41):
         add(b"[" + b",".join(rng.choice(KINDS) for _ in range(n)) + b"]", "count-array")
         add(b"{" + b",".join(b'"k%d":' % i + rng.choice(KINDS) for i in range(n)) + b"}", "count-object")
+    # large containers: every count up to 300 (all residues of the 4- and 8-chunk copy unrolls, beyond any bulk-copy threshold),
+    # then sparse up to 5000; flat, nested in a member, and as siblings
+    big = list(range(41, 301)) + [511, 512, 513, 1023, 1025, 2047, 2049, 4099, 5003]
+    if quick:
+        big = [n for n in big if n > 300 or n % 3 == rng.randrange(3) or n in (63, 64, 65, 127, 128, 129, 255, 256, 257)] 
+    for n in big:
+        arr = b"[" + b",".join(b"%d" % i for i in range(n)) + b"]"
+        obj = b"{" + b",".join(b'"k%d":%d' % (i, i) for i in range(n)) + b"}"
+        add(arr, "big-array")
+        add(obj, "big-object")
+        if n <= 600:
+            add(b'{"a":' + arr + b',"o":' + obj + b',"z":[' + b",".join(rng.choice(KINDS) for _ in range(n)) + b"]}", "big-nested")
+    # the children-block copy on its own (guard pages on both blocks): every chunk count 0..520, then sparse
+    for n in list(range(0, 521)) + [1000, 1023, 1024, 1025, 2047, 2049, 4097]:
+        for size in (16, 32):
+            cases.append({"lines": [f"xmemcpy {size} {n}"], "cls": "xmemcpy", "nontrivial": n > 4})
     for d in ([1, 2, 8, 31, 32, 33, 64] if quick else range(1, 65)):
         add(b"[" * d + b"1" + b"]" * d, "depth")
         add(b'{"a":' * d + b"null" + b"}" * d, "depth")
@@ -65,6 +81,12 @@ def generate(rng, tier):
 def judge(case, mo, io, cfg):
     if "CRASH" in io[0]:
         return ("violation", f"Parse crashed: {io[0][:200]} for `{case['lines'][0][:160]}`")
+    if case["lines"][0].startswith("xmemcpy"):
+        if io[0] != "ok":
+            return ("violation", f"Xmemcpy is not a copy of exactly the requested chunks: {io[0]} for `{case['lines'][0]}`")
+        if mo[0] != io[0]:
+            return ("drift", f"Xmemcpy model and implementation differ: model={mo[0]} impl={io[0]} for `{case['lines'][0]}`")
+        return None
     mhead, spec = c01.split(mo[0])
     if spec.startswith("ok:"):
         want = spec[3:]
@@ -80,7 +102,10 @@ def judge(case, mo, io, cfg):
     return None
 
 
-shrink = c01.shrink
+def shrink(case):
+    if case["lines"][0].startswith("xmemcpy"):
+        return iter(())
+    return c01.shrink(case)
 
 
 def search(rng, broken):
